@@ -17,3 +17,6 @@ HX int h_primes(unsigned n, int* out, int cap) {
 }
 HX int h_nextpow2(int m) { return nextpow2(m); }
 HX int h_ispow2(int m) { return ispow2(m) ? 1 : 0; }
+// two calls in one thread: the second result must not depend on the first call
+HX int64_t h_nextprime2(unsigned a, unsigned b) { H_TRY volatile unsigned r1 = nextprime(a); (void)r1; return (int64_t)nextprime(b); H_END }
+HX int h_isprime2(unsigned a, unsigned b) { volatile bool r1 = isprime(a); (void)r1; return isprime(b) ? 1 : 0; }
